@@ -404,3 +404,33 @@ package fun
 //@   ensures found: result1 == nil ==> calls(check) > old(calls(check)) && callret0(check, calls(check) - 1) && result0 == callret0(i.operation, calls(i.operation) - 1) && callret1(i.operation, calls(i.operation) - 1) == nil
 //@   ensures rejected: forall k: int :: old(calls(check)) <= k && k < calls(check) - (result1 == nil ? 1 : 0) ==> !callret0(check, k)
 //@   loop 1 invariant i != nil && (oncedone(i.closer.once) ==> iclosed(i)) && calls(check) >= old(calls(check)) && (forall k: int :: old(calls(check)) <= k && k < calls(check) ==> !callret0(check, k))
+
+// Producer.Join: the concatenation state machine. stage: 0 = reading the
+// first producer, 1 = first failed (sticky), 2 = reading the second, 3 =
+// second failed (sticky), 4 = exhausted. The first producer is consulted only
+// in stage 0, the second only in stages 0 (after the first reported io.EOF)
+// and 2; skips are consumed; a value is passed through unchanged; a failure
+// (not io.EOF) is returned and repeated on every later call; after the second
+// producer's io.EOF every call reports io.EOF.
+//@ func (Producer).Join$1
+//@   props C02
+//@   option atomics-sequential
+//@   option noframe
+//@   modifies calls(pf), calls(next), atomics, cell(ferr), cell(serr)
+//@   requires pf != nil && next != nil && pf != next && stage != nil && ctx != nil && 0 <= atomicval(stage) && atomicval(stage) <= 4 && (atomicval(stage) == 1 ==> ferr != nil) && (atomicval(stage) == 3 ==> serr != nil)
+//@   ensures (atomicval(stage) == 1 ==> ferr != nil) && (atomicval(stage) == 3 ==> serr != nil)
+//@   ensures 0 <= atomicval(stage) && atomicval(stage) <= 4 && atomicval(stage) >= old(atomicval(stage))
+//@   ensures firstonly: old(atomicval(stage)) != 0 ==> calls(pf) == old(calls(pf))
+//@   ensures secondonly: (old(atomicval(stage)) == 1 || old(atomicval(stage)) >= 3) ==> calls(next) == old(calls(next)) && atomicval(stage) == old(atomicval(stage))
+//@   ensures sticky1: old(atomicval(stage)) == 1 ==> result1 == old(ferr)
+//@   ensures sticky3: old(atomicval(stage)) == 3 ==> result1 == old(serr)
+//@   ensures eof: old(atomicval(stage)) == 4 ==> result1 == io_EOF
+//@   ensures fromfirst: result1 == nil && atomicval(stage) == 0 ==> calls(pf) > old(calls(pf)) && result0 == callret0(pf, calls(pf) - 1) && callret1(pf, calls(pf) - 1) == nil
+//@   ensures fromsecond: result1 == nil && atomicval(stage) == 2 ==> calls(next) > old(calls(next)) && result0 == callret0(next, calls(next) - 1) && callret1(next, calls(next) - 1) == nil
+//@   ensures value: result1 == nil ==> atomicval(stage) == 0 || atomicval(stage) == 2
+//@   ensures failed1: atomicval(stage) == 1 && old(atomicval(stage)) == 0 ==> result1 == ferr && result1 != nil && !errIs(result1, io_EOF)
+//@   ensures failed3: atomicval(stage) == 3 && old(atomicval(stage)) != 3 ==> result1 == serr && result1 != nil && !errIs(result1, io_EOF)
+//@   ensures skipped1: forall k: int :: old(calls(pf)) <= k && k < calls(pf) - 1 ==> errIs(callret1(pf, k), ErrIteratorSkip)
+//@   ensures skipped2: forall k: int :: old(calls(next)) <= k && k < calls(next) - 1 ==> errIs(callret1(next, k), ErrIteratorSkip)
+//@   loop 1 invariant atomicval(stage) == 0 && old(atomicval(stage)) == 0 && calls(pf) >= old(calls(pf)) && calls(next) == old(calls(next)) && (forall k: int :: old(calls(pf)) <= k && k < calls(pf) ==> errIs(callret1(pf, k), ErrIteratorSkip))
+//@   loop 2 invariant atomicval(stage) == 2 && (old(atomicval(stage)) == 0 || old(atomicval(stage)) == 2) && calls(next) >= old(calls(next)) && (old(atomicval(stage)) == 2 ==> calls(pf) == old(calls(pf))) && (forall k: int :: old(calls(next)) <= k && k < calls(next) ==> errIs(callret1(next, k), ErrIteratorSkip)) && (forall k: int :: old(calls(pf)) <= k && k < calls(pf) - 1 ==> errIs(callret1(pf, k), ErrIteratorSkip))
